@@ -571,6 +571,13 @@ func (e *Engine) execRun(w *worker, fn *ssa.Function, prefix []int64) *runResult
 		}
 	}
 	in.sch.wg.Wait()
+	if in.race != nil && len(in.race.reports) > 0 && out.end.kind == "done" {
+		// a data race on an explored, feasible path is a violation of the harness
+		v := &Violation{Kind: "race", Label: in.race.reports[0], Msg: strings.Join(in.race.reports, "; ")}
+		in.fillModel(v)
+		r.viol = v
+		out.end = pathEnd{kind: "violation", msg: "data race"}
+	}
 	res := &runResult{end: out.end, r: r, in: in}
 	if out.viol != nil && r.viol == nil {
 		r.viol = out.viol
